@@ -4,11 +4,12 @@
     says.  Statements only. *)
 From LOV Require Import Db.TxnProofs Upd.MutateProofs Upd.CondProofs.
 
-(** select returns exactly the rows satisfying the conditions *)
+(** select returns exactly the rows satisfying the conditions, reduced to the requested columns
+    (the whole row when "columns" is omitted) *)
 Theorem C03_select : forall S d0 d t wh cols T,
-  find_table S t = Some T -> conds_valid T wh = true ->
+  find_table S t = Some T -> conds_valid T wh = true -> cols_valid T cols = true ->
   exists rs, exec_op S d0 d (OSelect t wh cols) = (RRows rs, d) /\
-             (list_to_map rs : gmap sym (gmap sym value)) = filter_rows (get_tbl d t) wh.
+             (list_to_map rs : gmap sym (gmap sym value)) = select_row cols <$> filter_rows (get_tbl d t) wh.
 Proof. exact select_spec. Qed.
 Print Assumptions C03_select.
 
